@@ -138,6 +138,11 @@ pub fn run(args: &Args, prefix: &str) -> i32 {
                 if !th {
                     configs.push((format!("{name}-cap{cap}-d2"), base_cfg(sc.clone(), cap), 2));
                 }
+                // three deviations on the smallest data script: a real loss, a spurious loss of a
+                // delivered neighbour and the merged retransmission that follows
+                if name == "uni-2x2" {
+                    configs.push((format!("{name}-cap{cap}-d3"), base_cfg(sc.clone(), cap), 3));
+                }
                 if th {
                     configs.push((format!("{name}-cap{cap}-d2"), base_cfg(sc.clone(), cap), 2));
                     configs.push((format!("{name}-cap27-d2"), base_cfg(sc, 27), 2));
